@@ -414,3 +414,8 @@ for _p in ("C01", "C02", "C12"):
     _need(_p, ["Model/KBucket.v", "Model/Nodes.v", "Model/Admission.v", "Proofs/Admission.v"])
 for _p in ("C01", "C07", "C12"):
     _need(_p, ["Model/KBucket.v", "Proofs/KBMembers.v", "Proofs/KBucketGap.v"])
+
+# C11's ban clause end to end: the NODES packet has to be decoded whatever total it claims (rpcc, failures tagged
+# C11), and the ban of an offending responder has to last as configured (filter histories with unban_nodes_check)
+SPECS["C11"]["harness"].append({"component": "rpcc", "args": [], "quick": 400, "thorough": 4000, "correspondence": False})
+SPECS["C11"]["harness"].append({"component": "limiter", "args": ["--part", "fil"], "quick": 40, "thorough": 400, "correspondence": False})
